@@ -207,7 +207,6 @@ func MapSeq[M ~map[K]V, K comparable, V any](m M) func(yield func(K) bool) {
 	}
 }
 
-
 // PipeReader / PipeWriter wrap the ends of an io.Pipe where they are handed to code
 // that only sees an interface: every operation that may have blocked in the pipe is
 // followed by Woke, so that a goroutine woken by its peer parks before it goes on.
@@ -219,8 +218,8 @@ func (p pipeReader) Read(b []byte) (int, error) {
 	Woke()
 	return n, err
 }
-func (p pipeReader) Close() error                     { return p.r.Close() }
-func (p pipeReader) CloseWithError(err error) error   { return p.r.CloseWithError(err) }
+func (p pipeReader) Close() error                   { return p.r.Close() }
+func (p pipeReader) CloseWithError(err error) error { return p.r.CloseWithError(err) }
 
 // PipeReader returns r wrapped (an io.ReadCloser with CloseWithError).
 func PipeReader(r *io.PipeReader) interface {
